@@ -46,6 +46,184 @@ def _enclosing_try_with_handler(node, names, stop):
     return None, None
 
 
+TABLE = "_CHARACTER_MAP"
+PATH = ("path",)  # role of a parameter: it holds the source file's path
+
+
+def _bind_args(callee, call):
+    """parameter -> argument expression of ``call`` (defaults for omitted parameters)"""
+    a = callee.args
+    pos = [x.arg for x in a.posonlyargs + a.args]
+    if any(isinstance(x, ast.Starred) for x in call.args) or any(k.arg is None for k in call.keywords) or len(call.args) > len(pos):
+        raise AnalysisError(f"{CC}: cannot bind the arguments of `{short(call, 60)}` to {callee.name}'s parameters")
+    out = dict(zip(pos, call.args))
+    for k in call.keywords:
+        out[k.arg] = k.value
+    for p_, d in list(zip(reversed(pos), reversed(a.defaults))) + [(k.arg, d) for k, d in zip(a.kwonlyargs, a.kw_defaults) if d is not None]:
+        out.setdefault(p_, d)
+    return out
+
+
+def _elem_iter(fn, defs, name_node):
+    """the expression whose elements the name at ``name_node`` ranges over (the comprehension generator or the
+    for loop that binds it), else None"""
+    for a in ancestors(name_node):
+        if isinstance(a, (ast.ListComp, ast.SetComp, ast.GeneratorExp, ast.DictComp)):
+            for g in a.generators:
+                if isinstance(g.target, ast.Name) and g.target.id == name_node.id:
+                    return g.iter
+        if a is fn:
+            break
+    return element_source(fn, name_node.id, defs)
+
+
+def _reaches_return(fn, seeds):
+    """forward taint inside ``fn``: does a value computed from one of the nodes ``seeds`` (ids) get into a returned
+    value - through locals, in-place updates (`o[-1] = ..`, `o.append(..)`, `o += ..`) and loops"""
+    tainted = set()
+
+    def hot(e):
+        return e is not None and any(id(n) in seeds or (isinstance(n, ast.Name) and n.id in tainted) for n in ast.walk(e))
+
+    grew = True
+    while grew:
+        grew = False
+        for s in walk_local(fn):
+            tg = []
+            if isinstance(s, ast.Assign) and hot(s.value):
+                tg = s.targets
+            elif isinstance(s, (ast.AugAssign, ast.AnnAssign, ast.NamedExpr)) and hot(s.value):
+                tg = [s.target]
+            elif isinstance(s, (ast.For, ast.AsyncFor)) and hot(s.iter):
+                tg = [s.target]
+            elif isinstance(s, ast.Expr) and isinstance(s.value, ast.Call) and isinstance(s.value.func, ast.Attribute) and any(hot(x) for x in list(s.value.args) + [k.value for k in s.value.keywords]):
+                tg = [s.value.func.value]
+            for t in tg:
+                for n in ast.walk(t):
+                    if isinstance(n, ast.Name) and n.id not in tainted:
+                        tainted.add(n.id)
+                        grew = True
+    return any(isinstance(s, ast.Return) and hot(s.value) for s in walk_local(fn))
+
+
+def _table_lookups(fn, q, defs):
+    """(node, key, default) for every place where ``fn`` consults the mangling table: `M.get(k, d)` and
+    `M[k] if k in M else d`.  Any other use of the table is an unknown shape."""
+    tbl = {TABLE} | names_bound_to_text(fn, TABLE, defs)
+    is_tbl = lambda e: isinstance(e, ast.Name) and e.id in tbl
+    out, used = [], set()
+    for n in walk_local(fn):
+        if isinstance(n, ast.Call) and isinstance(n.func, ast.Attribute) and n.func.attr == "get" and is_tbl(n.func.value) and not n.keywords and 1 <= len(n.args) <= 2:
+            out.append((n, n.args[0], n.args[1] if len(n.args) == 2 else None))
+            used.add(id(n.func.value))
+        elif isinstance(n, ast.IfExp) and isinstance(n.test, ast.Compare) and len(n.test.ops) == 1 and isinstance(n.test.ops[0], (ast.In, ast.NotIn)) and is_tbl(n.test.comparators[0]):
+            hit, miss = (n.body, n.orelse) if isinstance(n.test.ops[0], ast.In) else (n.orelse, n.body)
+            if isinstance(hit, ast.Subscript) and is_tbl(hit.value) and same_text(hit.slice, n.test.left):
+                out.append((n, n.test.left, miss))
+                used |= {id(n.test.comparators[0]), id(hit.value)}
+    for n in walk_local(fn):
+        if is_tbl(n) and isinstance(n.ctx, ast.Load) and id(n) not in used:
+            par = parent(n)
+            if isinstance(par, ast.Assign) and par.value is n:
+                continue  # a local alias of the table
+            raise AnalysisError(f"{CC}:{q}: the path-mangling table is consulted in a way this rule does not know: `{short(stmt_of(n), 80)}`")
+    return out
+
+
+def _script_name_mangling(ctx, mod, pname, path_param, consts):
+    """R6 'cache-renamer-shape', decided on whichever function computes the script-cache file name: ``pname`` (the function
+    whose result the users hand to script_cache_check as the cache file) together with the module's helpers it calls.
+    ``path_param``: its parameter that receives the source path; ``consts``: its parameters bound to constants there."""
+    fns = {pname: mod.get(pname)}
+    edges = []
+    todo = [(pname, 0)]
+    while todo:
+        q, d = todo.pop(0)
+        for c in calls_in(fns[q]):
+            nm = call_name(c)
+            if nm and "." not in nm and nm != TABLE and mod.has(nm) and isinstance(mod.get(nm), FuncTypes):
+                edges.append((q, c, nm))
+                if nm not in fns and d < 3:
+                    fns[nm] = mod.get(nm)
+                    todo.append((nm, d + 1))
+    defs = {q: df.all_defs(f) for q, f in fns.items()}
+    # what each parameter holds: the source path / a constant, pushed down the calls from the producer
+    env = {q: {} for q in fns}
+    env[pname] = dict(consts)
+    env[pname][path_param] = PATH
+    for _ in range(4):
+        for f_, c, h in edges:
+            if h not in fns or h == pname or f_ == h:
+                continue
+            for p_, e in _bind_args(fns[h], c).items():
+                v = None
+                if isinstance(e, ast.Constant):
+                    v = ("const", e.value)
+                elif isinstance(e, ast.Name) and len(defs[f_].get(e.id, [])) == 1 and defs[f_][e.id][0].kind == "param" and env[f_].get(e.id, PATH)[0] == "const":
+                    v = env[f_][e.id]
+                elif any(k == "param" and env[f_].get(x) == PATH for k, x in df.leaves(defs[f_], e)):
+                    v = PATH
+                if v is not None and env[h].get(p_, v) != v:
+                    v = ("unknown",)
+                if v is not None:
+                    env[h][p_] = v
+
+    def flows(q, seeds, seen):
+        if not _reaches_return(fns[q], seeds):
+            return False
+        return q == pname or any(flows(f_, {id(c)}, seen | {q}) for f_, c, h in edges if h == q and f_ not in seen and f_ != q)
+
+    def splitter(e):
+        # a call of one of the module's functions that takes a path apart with os.path.split (all its components)
+        nm = call_name(e) if isinstance(e, ast.Call) else None
+        return bool(nm) and "." not in nm and mod.has(nm) and isinstance(mod.get(nm), FuncTypes) and any(call_name(c) == "os.path.split" for c in calls_in(mod.get(nm))) and len(e.args) >= 1
+
+    n_look = 0
+    for q, fn in fns.items():
+        for node, key, default in _table_lookups(fn, q, defs[q]):
+            n_look += 1
+            why = []
+            if not (default is not None and same_text(key, default)):
+                why.append(f"a character without an entry becomes `{unparse(default) if default is not None else None}`, not itself")
+            comp = resolve_copy_(defs[q], _elem_iter(fn, defs[q], key)) if isinstance(key, ast.Name) else None
+            parts = resolve_copy_(defs[q], _elem_iter(fn, defs[q], comp)) if isinstance(comp, ast.Name) else None
+            if not isinstance(comp, ast.Name):
+                why.append(f"`{unparse(key)}` is not each character of a path component")
+            elif not splitter(parts):
+                why.append(f"`{unparse(comp)}` does not range over all components of the split path ({unparse(parts) if parts is not None else 'not a loop variable'})")
+            else:
+                lv = df.leaves(defs[q], parts.args[0])
+                reals = [c for c in calls_in(fn) if call_name(c) in ("os.path.realpath", "realpath") and c.args and any(k == "param" and env[q].get(x) == PATH for k, x in df.leaves(defs[q], c.args[0]))]
+                if not (reals and {("call", call_name(c)) for c in reals} & lv):
+                    why.append(f"the path that is split, `{unparse(parts.args[0])}`, is not the real path of the source file")
+                else:
+                    # the real path is taken when the name is computed for a script (the constants the users pass)
+                    def atoms(e):
+                        if isinstance(e, ast.Name) and env[q].get(e.id, PATH)[0] == "const" and all(d.kind == "param" for d in defs[q].get(e.id, [])):
+                            return bool(env[q][e.id][1])
+                        return None
+
+                    cfg = CFG(fn)
+                    taken = False
+                    for c in reals:
+                        vals = [(ev3(e, atoms), pol, e) for e, pol in facts_at(cfg, node_in(cfg, stmt_of(c))[0])]
+                        und = [unparse(e) for v, pol, e in vals if v is None]
+                        if und:
+                            raise AnalysisError(f"{CC}:{q}: cannot decide whether `{short(c, 50)}` is evaluated for a script (guard {und})")
+                        taken = taken or all(v == pol for v, pol, e in vals)
+                    if not taken:
+                        why.append("the real path is not taken when the name of a script's entry is computed")
+            if not flows(q, {id(node)}, frozenset()):
+                why.append(f"the mangled text does not reach the value {pname} returns")
+            ctx.ob("R6", f"{CC}:{q}", "every character of every path component of the real path goes through the map (unmapped characters unchanged)", not why, key="cache-renamer-shape", where=loc(node), detail="; ".join(why) or None)
+    if not n_look:
+        ctx.ob("R6", f"{CC}:{pname}", "every character of every path component of the real path goes through the map (unmapped characters unchanged)", False, key="cache-renamer-shape", where=loc(fns[pname]), detail=f"neither {pname} nor a helper it calls ({sorted(set(fns) - {pname})}) consults {TABLE}")
+
+
+def resolve_copy_(defs, e):
+    return None if e is None else df.resolve_copy(defs, e)
+
+
 def check(ctx):
     ctx.not_decided += [
         "mtime granularity (edit within the same timestamp tick)",
@@ -121,6 +299,7 @@ def check(ctx):
     marshal_dump = [c for c in calls_in(upd) if call_name(c) == "marshal.dump"]
     ctx.ob("R1", f"{CC}:update_cache", "the writer emits the header before marshal.dump", bool(marshal_dump) and bool(wr_calls) and all(w[0] < marshal_dump[0].lineno for w in wr_calls), key="writer-order")
 
+    cache_params = {}
     for q in CHECKS:
         fn = flat(ctx, mod.func(q), depth=2, skip=("_check_cache_versions",))
         st = f"{CC}:{q}"
@@ -170,6 +349,7 @@ def check(ctx):
                     cache_param = o.args[0].id
             if cache_param is None:
                 raise AnalysisError(f"{st}: cannot identify the cache-file parameter (handle {unparse(handle)})")
+            cache_params[q] = cache_param
             if q == "script_cache_check":
                 src_params = [p for p in params if p != cache_param]
                 # ---- R2
@@ -206,6 +386,7 @@ def check(ctx):
                     users.append((m, q, fn, c))
     if len(users) < 4:
         raise AnalysisError(f"expected >= 4 users of the cache check functions, found {len(users)}")
+    producers = set()
     for m, q, fn, chk in users:
         st = f"{m.rel}:{q}"
         # helper-transparent view (a compile-and-store tail moved into a helper is still this function's miss path)
@@ -228,6 +409,23 @@ def check(ctx):
                         code = n_
         if flag is None or code is None:
             raise AnalysisError(f"{st}: result of {kind} is not unpacked into (flag, code)")
+        if kind == "script_cache_check":
+            # who computes the script-cache file name: the call whose result is handed over as the cache file
+            bound = _bind_args(mod.get(kind), chk)
+            cache_arg = bound.get(cache_params[kind])
+            src_args = [e for p_, e in bound.items() if p_ != cache_params[kind]]
+            found = 0
+            for arm in value_arms(defs, cache_arg) if cache_arg is not None else []:
+                nm = (call_name(arm) or "").split(".")[-1] if isinstance(arm, ast.Call) else ""
+                if nm and mod.has(nm) and isinstance(mod.get(nm), FuncTypes):
+                    pb = _bind_args(mod.get(nm), arm)
+                    pp = [p_ for p_, e in pb.items() if any(same_text(e, s_) for s_ in src_args)]
+                    if len(pp) != 1:
+                        raise AnalysisError(f"{st}: which argument of `{short(arm, 60)}` is the source path")
+                    producers.add((nm, pp[0], tuple(sorted((p_, ("const", e.value)) for p_, e in pb.items() if isinstance(e, ast.Constant)))))
+                    found += 1
+            if not found:
+                raise AnalysisError(f"{st}: cannot see what computes the cache file name `{unparse(cache_arg) if cache_arg is not None else None}` handed to {kind}")
         compiles = [c for c in calls_in(fn) if (call_name(c) or "") in ("compile_code", "self.execer.compile", "execer.compile")]
         if not compiles:
             raise AnalysisError(f"{st}: no compile call on the miss path")
@@ -384,9 +582,10 @@ def check(ctx):
     escs = {v[0] for v in vals if isinstance(v, str) and len(v) == 2}
     ok = len(escs) == 1 and all(isinstance(v, str) and len(v) == 2 for v in vals) and len(set(vals)) == len(vals) and next(iter(escs)) in cmap
     ctx.ob("R6", f"{CC}:_CHARACTER_MAP", f"the script-cache path mangling is an injective escape code ({len(cmap)} mapped characters, escape character {sorted(escs)} itself escaped)", ok, key="cache-name-mangling-not-injective", where=loc(cm))
-    cr = mod.func("_cache_renamer")
-    ok = any(isinstance(n, ast.Call) and call_name(n) == "_CHARACTER_MAP.get" and len(n.args) == 2 and unparse(n.args[0]) == unparse(n.args[1]) for n in ast.walk(cr)) and any(call_name(c) == "os.path.realpath" for c in calls_in(cr)) and any(call_name(c) == "_splitpath" for c in calls_in(cr))
-    ctx.ob("R6", f"{CC}:_cache_renamer", "every character of every path component of the real path goes through the map (unmapped characters unchanged)", ok, key="cache-renamer-shape", where=loc(cr))
+    if not producers:
+        raise AnalysisError(f"{CC}: no user of script_cache_check found whose cache file name could be traced")
+    for pname, pparam, pconsts in sorted(producers, key=str):
+        _script_name_mangling(ctx, mod, pname, pparam, dict(pconsts))
     # the digest's hexdigest is what is returned
     for n in walk_local(ccn):
         if isinstance(n, ast.Return):
